@@ -4,6 +4,7 @@ HEM = "hippolyzer/lib/proxy/http_event_manager.py"
 SESS = "hippolyzer/lib/proxy/sessions.py"
 CAPS = "hippolyzer/lib/proxy/caps.py"
 STATE = "hippolyzer/lib/client/state.py"
+CLIENT = "hippolyzer/lib/proxy/caps_client.py"
 
 _REQ_LOOP = '''            for known_cap_name, (known_cap_type, known_cap_url) in cap_data.region().caps.items():
                 if known_cap_type == CapType.PROXY_ONLY and known_cap_name in parsed_seed:
@@ -285,6 +286,41 @@ VARIANTS = [
         {"file": HEM, "old": "                region.update_caps(parsed)\n",
          "new": "                region.update_caps(parsed)\n                recorded: List[str] = flow.metadata['needed_proxy_caps']\n"},
         {"file": HEM, "old": "                for cap_name in flow.metadata['needed_proxy_caps']:", "new": "                for cap_name in recorded:"}]},
+    # ---- round 7 mechanisms
+    {"name": "R2 caps client gets a plain dict built from caps.items()", "file": CLIENT, "expect": "C16.R2",
+     "old": "        return self._region.cap_urls", "new": "        return dict((n, v[1]) for n, v in self._region.caps.items())"},
+    {"name": "P R2 caps client gets a dict of the first (newest) URL per name", "file": CLIENT, "expect": "silent",
+     "old": "        return self._region.cap_urls",
+     "new": "        return {name: self._region.caps[name][1] for name in self._region.caps.keys()}"},
+    {"name": "R4 CapsMultiDict.extend routed through the prepending add", "file": REG, "expect": "C16.R4",
+     "old": "\n\nclass ProxiedRegion(BaseClientRegion):",
+     "new": "\n    def extend(self, *args, **kwargs) -> None:\n        for k, v in multidict.MultiDict(*args, **kwargs).items():\n"
+            "            self.add(k, v)\n\n\nclass ProxiedRegion(BaseClientRegion):"},
+    {"name": "P R4 CapsMultiDict.extend routed through add, oldest first", "file": REG, "expect": "silent",
+     "old": "\n\nclass ProxiedRegion(BaseClientRegion):",
+     "new": "\n    def extend(self, *args, **kwargs) -> None:\n        for k, v in reversed(list(multidict.MultiDict(*args, **kwargs).items())):\n"
+            "            self.add(k, v)\n\n\nclass ProxiedRegion(BaseClientRegion):"},
+    {"name": "R10 a cap is wrapped that is_asset_server_cap_name does not cover", "file": HEM, "expect": "C16.R10",
+     "old": 'wrappable_caps = {"GetMesh2", "GetMesh", "GetTexture", "ViewerAsset"}',
+     "new": 'wrappable_caps = {"GetMesh2", "GetMesh", "GetTexture", "ViewerAsset", "FetchInventory2"}'},
+    {"name": "R10 asset cap names matched exactly (GetMesh2 no longer covered)", "file": CAPS, "expect": "C16.R10",
+     "old": '    return cap_name and (\n        cap_name.startswith("GetMesh")\n        or cap_name.startswith("GetTexture")\n'
+            '        or cap_name.startswith("ViewerAsset")\n    )',
+     "new": '    return cap_name in ("GetMesh", "GetTexture", "ViewerAsset")'},
+    {"name": "P R10 asset cap prefixes as one tuple", "file": CAPS, "expect": "silent",
+     "old": '    return cap_name and (\n        cap_name.startswith("GetMesh")\n        or cap_name.startswith("GetTexture")\n'
+            '        or cap_name.startswith("ViewerAsset")\n    )',
+     "new": '    return bool(cap_name) and cap_name.startswith(("GetMesh", "GetTexture", "ViewerAsset"))'},
+    {"name": "R3 rebuild guarded by a computed condition instead of a set flag", "file": REG, "expect": "C16.R3",
+     "old": "                self.caps.add(cap_name, (CapType.NORMAL, cap_url))\n                self._recalc_caps()",
+     "new": "                self.caps.add(cap_name, (CapType.NORMAL, cap_url))\n                dirty = cap_name == 'Seed'\n"
+            "                if dirty:\n                    self._recalc_caps()"},
+    {"name": "P R3 rebuild once after the loop under a dirty flag", "file": REG, "expect": "silent",
+     "old": "        for cap_name, cap_url in caps.items():\n            if isinstance(cap_url, str) and cap_url.startswith('http'):\n"
+            "                self.caps.add(cap_name, (CapType.NORMAL, cap_url))\n                self._recalc_caps()",
+     "new": "        dirty = False\n        for cap_name, cap_url in caps.items():\n            if isinstance(cap_url, str) and cap_url.startswith('http'):\n"
+            "                self.caps.add(cap_name, (CapType.NORMAL, cap_url))\n                dirty = True\n"
+            "        if dirty:\n            self._recalc_caps()"},
     # ---- documented limits
     {"name": "X only https URLs are tracked (validity filter is value-level)", "file": REG, "expect": "miss",
      "old": "cap_url.startswith('http')", "new": "cap_url.startswith('https')"},
